@@ -73,7 +73,7 @@ def cases(tier, seed):
     for frames in (["R", 0x2010], [0x3020, "R", 0x2010], ["R", 0x2010, 0x2010]):
         for flt in (None, 0x2010):
             for pre in (1, 3):
-                out.append({"part": "wait", "frames": frames, "filter": flt, "P": P, "pre": pre})
+                out.append({"part": "wait", "frames": frames, "filter": flt, "P": 2, "pre": pre})
     return out
 
 
@@ -221,7 +221,7 @@ def run_long(case, st):
         w.step(("cb",))
         w.step(("cb",))
     sends = [("send", i) for i in range(len(CODES)) if not R.is_reset(CODES[i])]
-    cyc = [e for e in EVENTS if e[0] not in ("creset", "cb")]
+    cyc = [e for e in EVENTS if e[0] not in ("creset", "cb", "cbn")]      # (a callback more per cycle makes the history quadratic)
     for k in range(N):
         if pat == "errors-only":
             ev = sends[k % len(sends)]
@@ -339,7 +339,7 @@ def run_wait(case, st):
         st.traces += 1
         st.transitions += len(s.trace)
         if s.pre:
-            st.nontrivial.add(("wait", tuple(frames), flt, case.get("pre", 0), tuple(t[1] for t in s.trace)))
+            st.nontrivial_n += 1          # (schedules are distinct by construction; keeping them costs gigabytes)
         rc = dict(case, schedule=[t[1] for t in s.trace])
         if deadlock:
             st.violation("C16:wait:deadlock", rc, "no deadlock", deadlock)
